@@ -706,6 +706,20 @@ func check(c Case) hx.Verdict {
 				return hx.Bad("", "put-put: `%s` gives %v but `%s` gives %v (errors %q / %q): doc=%s", e3, js(a), e4, js(b), oa.Err, ob.Err, c.Doc)
 			}
 		}
+		// the same assignment inside a construct that hands the document on: a binding (`v as $x | p = $x`),
+		// with(.; ...), a binding of something else in front (`.. as $y | p = v` runs the body once per binding)
+		if c.VPath == nil {
+			for _, e8 := range []string{litText(c.V) + " as $x | " + lhs + " = $x", "with(.; " + lhs + " = " + litText(c.V) + ")", "1 as $y | " + lhs + " = " + litText(c.V), `"k" as $k | ` + lhs + " = " + litText(c.V) + " | ."} {
+				g, og := run1(e8, c.Doc)
+				if v := crash(og, e8, c.Doc); v != nil {
+					return *v
+				}
+				if g == nil || !model.EqualTol(g, got, 1e-12) {
+					return hx.Bad("", "`%s` gives %v (err %q) but `%s` gives %s: doc=%s", e8, js(g), og.Err, expr, got.JSON(), c.Doc)
+				}
+			}
+			labels = append(labels, "assignment_under_binding")
+		}
 		// a container replaced by a scalar is gone: creating a path through it afterwards starts from nothing
 		if c.LHS == nil && len(M[0].p) > 0 && M[0].v != nil && (M[0].v.K == model.Map || M[0].v.K == model.Seq) && len(M[0].v.Elem)+len(M[0].v.Keys) > 0 {
 			step, st := `.["nk"]`, Step{K: "nk"}
